@@ -31,7 +31,7 @@ type c13L struct {
 }
 
 func init() {
-	steps := []string{"sessionless", "discovery", "open", "rakp1", "rakp3", "insession", "close", "sdr-info", "sdr-reserve", "sdr-get1", "sdr-get2", "sdr-get3", "sdr-get4", "sdr-final", "wrongpw", "close2"}
+	steps := []string{"sessionless", "discovery", "open", "rakp1", "rakp3", "insession", "close", "sdr-info", "sdr-reserve", "sdr-get1", "sdr-get2", "sdr-get3", "sdr-get4", "sdr-final", "wrongpw", "close2", "after-expired"}
 	faults := []string{"blackhole", "late", "garbage", "tempcode", "trunc", "ffrun", "drop-once", "repo-modified", "runts", "close-inflight"}
 	register(&Check{
 		ID:      "C13",
@@ -136,7 +136,7 @@ func c13Match(step string, b *refbmc.BMC, getCount *int) bool {
 		return false
 	}
 	switch step {
-	case "sessionless":
+	case "sessionless", "after-expired":
 		return e.Kind == "sessionless-ipmi" && e.Cmd == 0x37
 	case "discovery":
 		return e.Kind == "sessionless-ipmi" && e.Cmd == 0x54
@@ -294,6 +294,13 @@ func c13UDP(run *ev.Run, p c13P, cs ev.Case) (string, func()) {
 			return "violated", nil
 		}
 	}
+	if p.Step == "after-expired" {
+		// an earlier call on this connection was made with a context that had already expired
+		// (it fails at once); the measured call is the next one
+		c0, cancel0 := context.WithDeadline(context.Background(), time.Now().Add(-time.Second))
+		safe(func() { st.GetSystemGUID(c0) })
+		cancel0()
+	}
 	if p.Step == "close2" {
 		// a first Close that meets the fault (and, for most faults, fails); the measured call is the caller trying again
 		c0, cancel0 := context.WithTimeout(context.Background(), 150*time.Millisecond)
@@ -321,7 +328,7 @@ func c13UDP(run *ev.Run, p c13P, cs ev.Case) (string, func()) {
 		defer close(done)
 		pv, stk = safe(func() {
 			switch p.Step {
-			case "sessionless":
+			case "sessionless", "after-expired":
 				_, callErr = st.GetSystemGUID(ctx)
 			case "discovery", "open", "rakp1", "rakp3", "wrongpw":
 				_, callErr = st.NewV2Session(ctx, opts)
@@ -477,7 +484,7 @@ func c13Mem(run *ev.Run, l c13L, cs ev.Case) {
 	var callErr error
 	pv, stk := safe(func() {
 		switch l.Step {
-		case "sessionless":
+		case "sessionless", "after-expired":
 			_, callErr = st.GetSystemGUID(ctx)
 		case "discovery", "open", "rakp1", "rakp3", "wrongpw":
 			_, callErr = st.NewV2Session(ctx, opts)
